@@ -103,7 +103,7 @@ var validRestrictionsType = map[SchemaType]map[parse.NodeType]struct{}{
 		parse.NodeEnum: struct{}{},
 	},
 	SchemaIdentity: {
-		// None allowed
+		parse.NodeBase: struct{}{},
 	},
 	SchemaInstanceId: {
 		parse.NodeRequireInstance: struct{}{},
